@@ -14,7 +14,8 @@
 
    Floats: the harness maps every non-NaN float64 to a Z by an order
    preserving, negation-commuting encoding (sign * magnitude bits, both zeros
-   to 0); [f64_one] is the code of 1.0. *)
+   to 0); [f64_one] is the code of 1.0.  Strings: index in a sorted table of
+   distinct strings ("" first).  Both use type [TO]. *)
 From Typ Require Export Lib.Base Num.MathUtil.
 Local Open Scope Z_scope.
 
@@ -25,7 +26,7 @@ Inductive fn :=
 
 Inductive nty :=
   | TI (sg : bool) (w : Z)   (* integer type: signed?, width 8/16/32/64 *)
-  | TF.                      (* float32/float64 through the order encoding *)
+  | TO.                      (* ordered carrier through an order preserving encoding into Z: floats, strings *)
 
 Inductive zs := L (l : list Z) | R (lo n : Z).  (* explicit list, or lo, lo+1, ..., lo+n-1 *)
 Inductive args := Each (tuples : list (list Z)) | Cross (dims : list zs).
@@ -81,10 +82,11 @@ Definition run_util (f : fn) (tup : list Z) : option (result Z) :=
   | FTernCast, [cond; dyn; payload; ifFalse] =>
       let value := if dyn =? 0 then None else Some (dyn, payload) in
       Some (tern_cast 1 (z2b cond) value ifFalse)
-  (* kind 0: T is an interface type (dyn = 0: nil); kind 1: T is concrete type dyn (payload 0 = nil pointer) *)
+  (* kind 1: T is the concrete type dyn (payload 0 = nil pointer, nil slice, ...);
+     otherwise T is an interface type (any, error) and dyn = 0 is its nil value *)
   | FIsNil, [kind; dyn; payload] =>
-      let value := if kind =? 0 then OfIface (if dyn =? 0 then None else Some (dyn, payload))
-                   else OfConcrete dyn payload in
+      let value := if kind =? 1 then OfConcrete dyn payload
+                   else OfIface (if dyn =? 0 then None else Some (dyn, payload)) in
       Some (Ok (b2z (is_nil value)))
   | FRef, [v] => Some (Ok (deref_zero 0 (ref v)))            (* observed: *Ref(v) *)
   | FDerefZero, [isnil; v] => Some (Ok (deref_zero 0 (if z2b isnil then None else Some v)))
@@ -109,7 +111,7 @@ Definition run_int (f : fn) (t : ity) (tup : list Z) : option (result Z) :=
   | _, _ => None
   end.
 
-Definition run_float (f : fn) (tup : list Z) : option (result Z) :=
+Definition run_ord (f : fn) (tup : list Z) : option (result Z) :=
   match f, tup with
   | FMin, vs => Some (gmin Z.ltb vs)
   | FMax, vs => Some (gmax Z.ltb vs)
@@ -118,6 +120,7 @@ Definition run_float (f : fn) (tup : list Z) : option (result Z) :=
   | FAbs, [v] => Some (Ok (gabs Z.ltb Z.opp 0 v))
   | FCompare, [a; b] => Some (Ok (compare Z.ltb a b))
   | FLess, [a; b] => Some (Ok (b2z (less Z.ltb a b)))
+  | FCoal, vs => Some (Ok (coal Z.eqb 0 vs))   (* the zero value (0.0, -0.0, "") has code 0 *)
   | _, _ => None
   end.
 
@@ -131,7 +134,7 @@ Definition run1 (f : fn) (ty : nty) (tup : list Z) : option (result Z) :=
   if is_util f then run_util f tup else
   match ty with
   | TI sg w => match width_of w with Some w' => run_int f (ITy sg w') tup | None => None end
-  | TF => run_float f tup
+  | TO => run_ord f tup
   end.
 
 (* returned values in order; (index, kind) of the panicking calls; None if any tuple is malformed *)
